@@ -511,6 +511,10 @@ func (in *Interp) exec(n *Node, env *Env, echo bool) signal {
 func (in *Interp) declare(n *Node, env *Env) {
 	var v Value = Nil{}
 	if n.Kids[0] != nil {
+		if _, exists := env.Vars[n.Name]; exists && !env.Params[n.Name] && !pure(n.Kids[0], env) {
+			// like a wrong-arity call with impure arguments: whether the initialiser runs before the error is not pinned
+			ood("redeclaration of %q whose initialiser has effects", n.Name)
+		}
 		v = in.eval(n.Kids[0], env)
 	}
 	if _, exists := env.Vars[n.Name]; exists {
